@@ -35,7 +35,20 @@ type gbuilder struct {
 // usable: a definition that read shared state stands for that state only inside the section it
 // was made in.
 func (b *gbuilder) usable(d localDef) bool {
-	return d.expr != nil && (!d.shared || d.sec == b.sec)
+	return (d.expr != nil || d.alias != nil) && (!d.shared || d.sec == b.sec)
+}
+
+// defTerm / defFormula: what a usable definition stands for.
+func (b *gbuilder) defTerm(d localDef) (string, bool) {
+	if d.alias != nil {
+		if d2, ok := b.defs[d.alias]; ok && b.usable(d2) && b.depth < 6 {
+			b.depth++
+			defer func() { b.depth-- }()
+			return b.defTerm(d2)
+		}
+		return b.c.Role(d.alias), true
+	}
+	return b.term(d.expr, d.fr)
 }
 
 func (b *gbuilder) term(e ast.Expr, fr *core.Frame) (string, bool) {
@@ -52,7 +65,7 @@ func (b *gbuilder) term(e ast.Expr, fr *core.Frame) (string, bool) {
 			if d, ok := b.defs[v]; ok && b.usable(d) && b.depth < 6 {
 				// a local that merely renames a field/len()/Load(): use what it stands for
 				b.depth++
-				t, ok := b.term(d.expr, d.fr)
+				t, ok := b.defTerm(d)
 				b.depth--
 				if ok {
 					return t, true
@@ -74,6 +87,18 @@ func (b *gbuilder) term(e ast.Expr, fr *core.Frame) (string, bool) {
 			return b.c.Role(v), true
 		}
 	case *ast.SelectorExpr:
+		if v := localFieldVar(x, fr); v != nil {
+			// a field of a local struct value: a local in all but syntax
+			if d, ok := b.defs[v]; ok && b.usable(d) && b.depth < 6 {
+				b.depth++
+				t, ok := b.defTerm(d)
+				b.depth--
+				if ok {
+					return t, true
+				}
+			}
+			return b.c.Role(v), true
+		}
 		if fv := fieldVar(x, fr); fv != nil {
 			return core.FieldName(fv), true
 		}
@@ -164,7 +189,7 @@ func (b *gbuilder) build(e ast.Expr, fr *core.Frame) *formula {
 			return &formula{kind: fConst, val: tv.Value.ExactString() == "true"}
 		}
 		if v := identVar(x, fr); v != nil {
-			if d, ok := b.defs[v]; ok && b.usable(d) && b.depth < 6 && isBasic(v.Type(), types.IsBoolean) {
+			if d, ok := b.defs[v]; ok && b.usable(d) && b.depth < 6 && isBasic(v.Type(), types.IsBoolean) && d.expr != nil {
 				b.depth++
 				f := b.build(d.expr, d.fr)
 				b.depth--
@@ -179,6 +204,14 @@ func (b *gbuilder) build(e ast.Expr, fr *core.Frame) *formula {
 			return atom("F(" + b.c.Role(v) + ")")
 		}
 	case *ast.SelectorExpr:
+		if v := localFieldVar(x, fr); v != nil {
+			if d, ok := b.defs[v]; ok && b.usable(d) && b.depth < 6 && isBasic(v.Type(), types.IsBoolean) && d.expr != nil {
+				b.depth++
+				f := b.build(d.expr, d.fr)
+				b.depth--
+				return f
+			}
+		}
 		if t, ok := b.term(x, fr); ok {
 			return atom("F(" + t + ")")
 		}
@@ -307,6 +340,9 @@ func prepare(c *Ctx, p *core.Path) *gpath {
 			if d.expr != nil && mentionsVar(d.expr, w, d.fr) {
 				dead = append(dead, k)
 			}
+			if d.alias != nil && (d.alias == w || virtualField(d.alias) == w.Origin() || baseVar(d.alias) == w) {
+				dead = append(dead, k)
+			}
 		}
 		if len(dead) > 0 {
 			cur = clone()
@@ -344,6 +380,30 @@ func prepare(c *Ctx, p *core.Path) *gpath {
 				break
 			}
 			kill(ev.Var)
+			// a struct value assigned as a whole (snap = curr): field-wise aliases
+			if lv := identVar(ev.Lhs, ev.Frame); lv != nil && !lv.IsField() && virtualField(lv) == nil {
+				if st, isStruct := lv.Type().Underlying().(*types.Struct); isStruct {
+					cur = clone()
+					var src *types.Var
+					if ev.Rhs != nil && ev.RhsIdx < 0 && (ev.Tok == token.ASSIGN || ev.Tok == token.DEFINE) {
+						if rv := identVar(ev.Rhs, ev.Frame); rv != nil && !rv.IsField() && virtualField(rv) == nil && types.Identical(rv.Type(), lv.Type()) {
+							src = rv
+						}
+					}
+					for fi := 0; fi < st.NumFields(); fi++ {
+						f := st.Field(fi)
+						if orig := structFieldOrigin(lv.Type(), fi); orig != nil {
+							f = orig
+						}
+						k := virtualLocal(lv, f)
+						if src != nil {
+							cur[k] = localDef{alias: virtualLocal(src, f), fr: ev.Frame, sec: g.sec[i], shared: readsShared(c, ev.Rhs, ev.Frame)}
+						} else {
+							delete(cur, k)
+						}
+					}
+				}
+			}
 			if v := identVar(ev.Lhs, ev.Frame); v != nil && !v.IsField() {
 				cur = clone()
 				if ev.Rhs != nil && ev.RhsIdx < 0 && (ev.Tok == token.ASSIGN || ev.Tok == token.DEFINE) && isAtomicRMW(ev.Rhs, ev.Frame) {
@@ -1075,4 +1135,42 @@ func bodyOrCalleesMatch(c *Ctx, d *core.FuncDecl, pred func(d *core.FuncDecl, n 
 		return !hit
 	})
 	return hit
+}
+
+// fieldByRole names a field of an unexported implementation struct by its role — the k-th field
+// (declaration order, 1-based) whose type satisfies pred — so that renaming the field changes nothing.
+func fieldByRole(c *Ctx, pkg, typ string, pred func(types.Type) bool, k int, what string) string {
+	if p := c.Prog.Pkg(pkg); p != nil {
+		if o := p.Types.Scope().Lookup(typ); o != nil {
+			if st, ok := o.Type().Underlying().(*types.Struct); ok {
+				n := 0
+				for i := 0; i < st.NumFields(); i++ {
+					if pred(st.Field(i).Type()) {
+						n++
+						if n == k {
+							return core.FieldName(st.Field(i))
+						}
+					}
+				}
+			}
+		}
+	}
+	c.MissingAnchor("R12", sprintf("%s.%s: %s", pkg, typ, what))
+	return "?" + what
+}
+
+func isIntType(t types.Type) bool { return isBasic(t, types.IsInteger) }
+
+// structFieldOrigin: the origin (generic declaration) of the i-th field of a possibly instantiated
+// struct type.
+func structFieldOrigin(t types.Type, i int) *types.Var {
+	if n, ok := t.(*types.Named); ok {
+		if st, ok := n.Origin().Underlying().(*types.Struct); ok && i < st.NumFields() {
+			return st.Field(i)
+		}
+	}
+	if st, ok := t.Underlying().(*types.Struct); ok && i < st.NumFields() {
+		return st.Field(i).Origin()
+	}
+	return nil
 }
